@@ -5,7 +5,8 @@ CONSTANTS
   ConnOf <- ConnOfDef
   Items <- ItemsDef
   WaitForConns = TRUE
+  Aging = TRUE
   DrainGracefully = FALSE
 INVARIANTS ResolveLate NoLoss
-PROPERTIES NoAcceptAfter AcceptedCompletes ResolveEventually
+PROPERTIES NoAcceptAfter AcceptedCompletes ResolveEventually EndResolves
 CHECK_DEADLOCK FALSE
